@@ -200,3 +200,31 @@ def effects(n, facts=None, pure_pred=None):
             e.opaque = True
     e.mod.discard(('tmp',))
     return e
+
+
+FLIP = {'<': '>', '<=': '>=', '>': '<', '>=': '<=', '==': '==', '!=': '!='}
+NEG = {'<': '>=', '<=': '>', '>': '<=', '>=': '<', '==': '!=', '!=': '=='}
+
+
+def rel_forms(cond, truth=True):
+    """All equivalent readings (lhs, op, rhs) of `cond` taken with the given truth value: operand order flipped, leading negations and `== false` / `== true` wrappers removed.
+    Use:  any(op == '<' and is_x(l) and is_y(r) for (l, op, r) in rel_forms(cn, t))   instead of matching one spelling."""
+    n = cond
+    pol = truth
+    while True:
+        n = strip_casts(n)
+        if n['k'] == 'UnaryOperator' and n.get('op') == '!':
+            pol = not pol
+            n = n['ch'][0]
+            continue
+        if n['k'] == 'BinaryOperator' and n.get('op') in ('==', '!=') and len(n['ch']) == 2 and strip_casts(n['ch'][1])['k'] == 'CXXBoolLiteralExpr':
+            if (n['op'] == '==') != bool(strip_casts(n['ch'][1]).get('v')):
+                pol = not pol
+            n = n['ch'][0]
+            continue
+        break
+    if n['k'] != 'BinaryOperator' or n.get('op') not in FLIP or len(n['ch']) != 2:
+        return []
+    op = n['op'] if pol else NEG[n['op']]
+    l, r = strip_casts(n['ch'][0]), strip_casts(n['ch'][1])
+    return [(l, op, r), (r, FLIP[op], l)]
